@@ -1,6 +1,7 @@
 package props
 
 import (
+	"sort"
 	"bytes"
 	"fmt"
 	"path"
@@ -31,6 +32,7 @@ type c10Case struct {
 	BadVol   int   `json:"badvol,omitempty"`  // volume (1-based) whose parity data is wrong but whose hashes are valid (0 none)
 	Filler   int   `json:"filler,omitempty"`  // this many additional NON-saved entries (files not in the parity set) are listed after the others
 	DC       bool  `json:"dc,omitempty"`
+	Enc      *encProtoCase `json:"enc,omitempty"` // Dir "encproto": operation sequences on one exported Encoder object
 }
 
 var c10NameSets = [][]string{
@@ -63,40 +65,58 @@ func c10WriteDir(c *c10Case, r *core.Rec) {
 		r.Violatef("create-failed:"+errClass(err), "%v", err)
 		return
 	}
-	want := map[string]int{"/d/s.par": 0}
-	for v := 1; v <= c.Volumes; v++ {
-		want[fmt.Sprintf("/d/s.p%02d", v)] = v
+	files := map[string][]byte{}
+	for _, op := range fs.Writes() {
+		files[op.Path] = op.Data
+	}
+	c10Validate(files, "/d/s", c.Names, datas, c.Volumes, r)
+	r.Outcome(fmt.Sprintf("write %v %d", c.Sizes, c.Volumes))
+	r.NontrivialCase()
+}
+
+// c10Validate judges the files of one written PAR1 set (path -> bytes; base = index path without ".par") with the
+// reference reader against the file contents the set is supposed to protect.
+func c10Validate(files map[string][]byte, base string, names []string, datas [][]byte, volumes int, r *core.Rec) {
+	want := map[string]int{base + ".par": 0}
+	for v := 1; v <= volumes; v++ {
+		want[fmt.Sprintf("%s.p%02d", base, v)] = v
 	}
 	got := map[string]bool{}
-	for _, op := range fs.Writes() {
-		got[op.Path] = true
-		num, ok := want[op.Path]
+	var order []string
+	for p := range files {
+		order = append(order, p)
+	}
+	sort.Strings(order)
+	for _, opPath := range order {
+		opData := files[opPath]
+		got[opPath] = true
+		num, ok := want[opPath]
 		if !ok {
-			r.Violatef("unexpected-output-name", "Create wrote %q", op.Path)
+			r.Violatef("unexpected-output-name", "Create wrote %q", opPath)
 			continue
 		}
-		vol, perr := rpar1.Parse(op.Data)
+		vol, perr := rpar1.Parse(opData)
 		if perr != nil {
-			r.Violatef("output-not-conformant", "%s: %v", op.Path, perr)
+			r.Violatef("output-not-conformant", "%s: %v", opPath, perr)
 			continue
 		}
 		if vol.Number != uint64(num) {
-			r.Violatef("volume-number-wrong", "%s: volume number %d", op.Path, vol.Number)
+			r.Violatef("volume-number-wrong", "%s: volume number %d", opPath, vol.Number)
 		}
-		if len(vol.Entries) != len(c.Sizes) {
-			r.Violatef("entry-count-wrong", "%s: %d entries for %d files", op.Path, len(vol.Entries), len(c.Sizes))
+		if len(vol.Entries) != len(names) {
+			r.Violatef("entry-count-wrong", "%s: %d entries for %d files", opPath, len(vol.Entries), len(names))
 			continue
 		}
 		for i, e := range vol.Entries {
-			we := rpar1.MakeEntry(c.Names[i], datas[i], true)
+			we := rpar1.MakeEntry(names[i], datas[i], true)
 			if !e.Saved() {
-				r.Violatef("entry-not-marked-saved", "%s: entry %d status %#x", op.Path, i, e.Status)
+				r.Violatef("entry-not-marked-saved", "%s: entry %d status %#x", opPath, i, e.Status)
 			}
 			if e.Size != we.Size || e.MD5 != we.MD5 || e.MD516k != we.MD516k {
-				r.Violatef("entry-hash-or-size-wrong", "%s: entry %d (%q): size/MD5/MD5-16k differ from the reference", op.Path, i, c.Names[i])
+				r.Violatef("entry-hash-or-size-wrong", "%s: entry %d (%q): size/MD5/MD5-16k differ from the reference", opPath, i, names[i])
 			}
 			if !bytes.Equal(e.RawName, we.RawName) {
-				r.Violatef("entry-name-encoding-wrong", "%s: entry %d name bytes % x, want UTF-16LE % x", op.Path, i, e.RawName, we.RawName)
+				r.Violatef("entry-name-encoding-wrong", "%s: entry %d name bytes % x, want UTF-16LE % x", opPath, i, e.RawName, we.RawName)
 			}
 		}
 		if num == 0 {
@@ -106,7 +126,7 @@ func c10WriteDir(c *c10Case, r *core.Rec) {
 		} else {
 			wantPar := rpar1.Parity(datas, num)
 			if !bytes.Equal(vol.Data, wantPar) {
-				r.Violatef("parity-data-wrong", "%s: parity data differs from sum_i i^(%d-1) * file_i over GF(2^8)/0x11D, files zero-padded to the longest", op.Path, num)
+				r.Violatef("parity-data-wrong", "%s: parity data differs from sum_i i^(%d-1) * file_i over GF(2^8)/0x11D, files zero-padded to the longest", opPath, num)
 			}
 		}
 	}
@@ -115,8 +135,6 @@ func c10WriteDir(c *c10Case, r *core.Rec) {
 			r.Violatef("expected-output-missing", "Create did not write %q", p)
 		}
 	}
-	r.Outcome(fmt.Sprintf("write %v %d", c.Sizes, c.Volumes))
-	r.NontrivialCase()
 }
 
 func c10ReadDir(c *c10Case, r *core.Rec) {
@@ -293,6 +311,12 @@ func c10ReadDir(c *c10Case, r *core.Rec) {
 }
 
 func c10Gen(g *core.Gen) {
+	// the staged exported API behind Create: every operation sequence on one Encoder object while the inputs change
+	depth := 7
+	if g.Thorough() {
+		depth = 8
+	}
+	encProtoGen(g, "p1", depth, func(e *encProtoCase) { g.Emit(&c10Case{Dir: "encproto", Enc: e}) })
 	// writer direction: C04's sets
 	for nf := 1; nf <= 4; nf++ {
 		var rec func(cur []int)
@@ -403,14 +427,16 @@ func init() {
 	core.Register(&core.Prop{
 		ID:    "C10",
 		Level: "model_checking",
-		Rule: "writer direction: full product 1-4 files x sizes {0,1,2,5,9} x volumes {1,2,3,10} with ASCII / Latin-1 / CJK / astral names, plus >16 KiB files and 98/99 volumes; every file gopar writes is parsed by the strict reference reader (header, offsets, control hash, set hash, UTF-16LE entries) and every parity byte recomputed with the reference GF(2^8). " +
+		Rule: "(plus the staged exported API behind Create: EVERY sequence of <=7 (thorough 8) operations from {LoadFileData, ComputeParityData, Write, replace input a by a shorter / longer / its original content, delete / restore input b} on ONE Encoder object on a real directory; a Write is judged iff the latest load attempt succeeded and a compute followed it - then it must succeed and the files must be a conformant set for the contents loaded last; LoadFileData must fail iff an input is missing; sequences are not merged by model state, since the point is state hidden in the object) writer direction: full product 1-4 files x sizes {0,1,2,5,9} x volumes {1,2,3,10} with ASCII / Latin-1 / CJK / astral names, plus >16 KiB files and 98/99 volumes; every file gopar writes is parsed by the strict reference reader (header, offsets, control hash, set hash, UTF-16LE entries) and every parity byte recomputed with the reference GF(2^8). " +
 			"reader direction: reference-written sets with EVERY status bitmask over 1-4 (thorough 1-5) entries (>=1 saved; bit0 saved, bit1 checked) x comment {none, ASCII, binary, 1 KiB} x 3 name sets incl. surrogate pairs x EVERY subset of damaged saved files x EVERY subset of missing volumes, plus a volume with wrong parity data but valid hashes; plus sets listing 90-300 additional non-saved files (total file counts around 99, 255, 256 and above); real Verify(all data) and Repair. non-trivial = damaged set repaired / every write-direction case",
 		Assumptions: []string{"files are numbered from 1 over the saved entries in list order (PAR 1.0 spec)", "non-saved entries are ignored by verification and never written"},
 		NewCase:     func() interface{} { return &c10Case{} },
 		Gen:         c10Gen,
 		Run: func(ci interface{}, r *core.Rec) {
 			c := ci.(*c10Case)
-			if c.Dir == "write" {
+			if c.Dir == "encproto" {
+				encProtoRun(c.Enc, r, func(e *encProtoCase) interface{} { return &c10Case{Dir: "encproto", Enc: e} })
+			} else if c.Dir == "write" {
 				c10WriteDir(c, r)
 			} else {
 				c10ReadDir(c, r)
